@@ -77,10 +77,6 @@ void harness(void)
   __CPROVER_assume(IMPLIES(options.redirect.in.handle != 0, USER_FD_OK(options.redirect.in.handle)) &&
                    IMPLIES(options.redirect.out.handle != 0, USER_FD_OK(options.redirect.out.handle)) &&
                    IMPLIES(options.redirect.err.handle != 0, USER_FD_OK(options.redirect.err.handle)));
-#ifdef VERIF_EXCLUDE_D15
-  /* known finding D15: REPROC_REDIRECT_PARENT for a stream the parent does not have */
-  __CPROVER_assume(gc.cfg_std_fileno[0] >= 0 && gc.cfg_std_fileno[1] >= 0 && gc.cfg_std_fileno[2] >= 0);
-#endif
   gc.in_data = options.input.data;
   gc.in_size = options.input.size;
   gc.cfg_wd = options.working_directory;
